@@ -746,6 +746,15 @@ def _ev(e, env):
             return bool(_ev(e.args[0], env))
         if fn == 'len' and len(e.args) == 1:
             return len(_ev(e.args[0], env))
+        if fn == 'dict' and len(e.args) <= 1 and all(k.arg for k in e.keywords):
+            # dict(d, k=v): a copy of the option with entries set
+            base = _ev(e.args[0], env) if e.args else {}
+            if not isinstance(base, dict):
+                raise _Crash('`%s` with the option %r' % (norm(e), base))
+            out = dict(base)
+            for k in e.keywords:
+                out[k.arg] = _ev(k.value, env)
+            return out
         if fn == 'getattr' and len(e.args) == 2 and norm(e.args[0]).endswith('CompressionCodec'):
             return ('codec', _ev(e.args[1], env))
         if isinstance(e.func, ast.Attribute) and e.func.attr in ('upper', 'lower') and not e.args:
